@@ -1,0 +1,12 @@
+//go:build verif
+
+package bexpr
+
+import "github.com/hashicorp/go-bexpr/grammar"
+
+// VerifAST returns the syntax tree the evaluator holds. Read-only accessor
+// used by the verification harness in /verif; it is compiled only under the
+// `verif` build tag.
+func (eval *Evaluator) VerifAST() grammar.Expression {
+	return eval.ast
+}
